@@ -133,3 +133,215 @@ package derive
 //@ extern func bytes.Equal(a []byte, b []byte) (r bool)
 //@ pure
 //@ ensures r <==> (len(a) == len(b) && forall j int :: 0 <= j && j < len(a) ==> a[j] == b[j])
+
+// ---------------------------------------------------------------------------
+// plugin.go, generate.go: plugin order and dispatch  (C12, C11, C08)
+// ---------------------------------------------------------------------------
+
+//@ extern func strings.HasPrefix(s string, prefix string) (r bool)
+//@ pure
+//@ ensures r <==> hasPrefix(s, prefix)
+
+//@ func (g *Plugin) GetPrefix() (r string)
+//@ pure
+//@ func (g *Plugin) Name() (r string)
+//@ pure
+
+// ghost: the generator that handled the most recent registration
+//@ func (g *Generator) Add(name string, typs []types.Type) (r string, err error)
+//@ assigns handledBy
+//@ ensures handledBy == g
+//@ ensures [no-rename-without-flags] err == nil && !mayRename(g) ==> r == name
+
+// before(x, y): plugin x must come before plugin y (longer prefix first, then
+// the lexicographically greater prefix)
+//@ ghost-fun before(x, y) = len(derive.Plugin.GetPrefix(x)) > len(derive.Plugin.GetPrefix(y)) || (len(derive.Plugin.GetPrefix(x)) == len(derive.Plugin.GetPrefix(y)) && strlt(derive.Plugin.GetPrefix(y), derive.Plugin.GetPrefix(x)))
+
+//@ func sortPlugins(ps []Plugin) ()
+//@ assigns nothing
+//@ requires forall k int :: 0 <= k && k < len(ps) ==> ps[k] != nil
+//@ mutates-arg: ps
+//@ ensures [sorted] len(final(ps)) == len(ps) && forall a int, b int :: 0 <= a && a < b && b < len(ps) ==> !before(final(ps)[b], final(ps)[a])
+//@ ensures [same-plugins] forall k int :: 0 <= k && k < len(ps) ==> exists l int :: 0 <= l && l < len(ps) && final(ps)[k] == ps[l]
+
+//@ func union(this, that map[string]struct{}) (r map[string]struct{})
+//@ assigns nothing
+//@ ensures forall k string :: (k in r) <==> (k in this || k in that)
+//@ ensures r != nil <==> (this != nil || len(that) > 0)
+//@ requires this != nil
+//@ loop 1: invariant this != nil && forall k string :: (k in this) <==> (k in old(this) || visited(k))
+
+// A string that is a prefix of another is not longer (trusted string lemma).
+//@ axiom forall s string, p string :: hasPrefix(s, p) ==> len(p) <= len(s)
+
+//@ inv pkg: forall a int, b int :: 0 <= a && a < b && b < len(self.plugins) ==> !before(self.plugins[b], self.plugins[a])
+//@ inv pkg: self.printer != nil
+//@ inv pkg: self.generators != nil && forall i int :: 0 <= i && i < len(self.plugins) ==> self.plugins[i] != nil && derive.Plugin.Name(self.plugins[i]) in self.generators && self.generators[derive.Plugin.Name(self.plugins[i])] != nil
+
+//@ func (pkg *pkg) Add(call *call) (r string, err error)
+//@ assigns handledBy
+//@ requires call != nil
+//@ ensures [first-match] (r != "" && err == nil) ==> exists i int :: 0 <= i && i < len(pkg.plugins) && hasPrefix(call.Name, derive.Plugin.GetPrefix(pkg.plugins[i]))
+//@    && handledBy == pkg.generators[derive.Plugin.Name(pkg.plugins[i])]
+//@    && (forall j int :: 0 <= j && j < i ==> !hasPrefix(call.Name, derive.Plugin.GetPrefix(pkg.plugins[j])))
+//@    && (forall j int :: 0 <= j && j < len(pkg.plugins) && hasPrefix(call.Name, derive.Plugin.GetPrefix(pkg.plugins[j])) ==> len(derive.Plugin.GetPrefix(pkg.plugins[j])) <= len(derive.Plugin.GetPrefix(pkg.plugins[i])))
+//@ ensures [no-rename-without-flags] err == nil && r != "" && (forall i int :: 0 <= i && i < len(pkg.plugins) ==> !mayRename(pkg.generators[derive.Plugin.Name(pkg.plugins[i])])) ==> r == call.Name
+//@ ensures [no-match] (forall j int :: 0 <= j && j < len(pkg.plugins) ==> !hasPrefix(call.Name, derive.Plugin.GetPrefix(pkg.plugins[j]))) ==> r == "" && err == nil && handledBy == old(handledBy)
+//@ loop 1: invariant handledBy == old(handledBy) && forall j int :: 0 <= j && j < $i ==> !hasPrefix(call.Name, derive.Plugin.GetPrefix(pkg.plugins[j]))
+
+// ---------------------------------------------------------------------------
+// ghost file system (C07, C10): fs maps a path to the file's content; a path
+// that is not a key does not exist. foff is the write offset of open handles.
+// External (trusted) contracts of the os / io / go/format calls in generate.go.
+// ---------------------------------------------------------------------------
+
+// sameExcept(a, b, p): the file systems a and b agree on every path but p
+//@ ghost-fun sameExcept(a, b, p) = forall q string :: q != p ==> ((q in a) <==> (q in b)) && a[q] == b[q]
+
+//@ extern func os.Create(name string) (f *os.File, err error)
+//@ assigns fs, foff
+//@ ensures err == nil ==> f != nil && pathOf(f) == name && name in fs && fs[name] == "" && foff[f] == 0 && sameExcept(fs, old(fs), name)
+//@ ensures err != nil ==> fs == old(fs) && foff == old(foff)
+
+// flag bits: O_CREATE = 64, O_TRUNC = 512
+//@ extern func os.OpenFile(name string, flag int, perm os.FileMode) (f *os.File, err error)
+//@ assigns fs, foff
+//@ ensures err == nil ==> f != nil && pathOf(f) == name && foff[f] == 0 && name in fs && sameExcept(fs, old(fs), name)
+//@ ensures err == nil && hasFlag(flag, 512) ==> fs[name] == ""
+//@ ensures err == nil && !hasFlag(flag, 512) && !hasFlag(flag, 64) ==> name in old(fs) && fs[name] == old(fs)[name]
+//@ ensures err != nil ==> fs == old(fs) && foff == old(foff)
+
+//@ extern func os.Stat(name string) (info os.FileInfo, err error)
+//@ assigns nothing
+//@ ensures err == nil ==> name in fs && info != nil
+//@ ensures !(name in fs) ==> err != nil && isNotExist(err)
+//@ ensures err != nil && isNotExist(err) ==> !(name in fs)
+
+//@ extern func os.IsNotExist(err error) (r bool)
+//@ pure
+//@ ensures r <==> isNotExist(err)
+
+//@ extern func os.Remove(name string) (err error)
+//@ assigns fs
+//@ ensures err == nil ==> !(name in fs) && sameExcept(fs, old(fs), name)
+//@ ensures err != nil ==> fs == old(fs)
+
+//@ extern func (f *os.File) Close() (err error)
+//@ assigns nothing
+//@ deferrable
+
+//@ extern func (i *fs.FileInfo) Mode() (r os.FileMode)
+//@ pure
+
+// format.Node writes the gofmt rendering of the AST (in its current state) at the handle's offset.
+//@ extern func format.Node(dst io.Writer, fset *token.FileSet, node interface{}) (err error)
+//@ assigns fs, foff
+//@ ensures err == nil ==> fs[pathOf(dst)] == overwrite(old(fs)[pathOf(dst)], old(foff)[dst], Format(node))
+//@ ensures (pathOf(dst) in fs) <==> (pathOf(dst) in old(fs))
+//@ ensures sameExcept(fs, old(fs), pathOf(dst))
+
+//@ extern func log.Printf(format string, v []interface{}) ()
+//@ assigns nothing
+
+//@ extern func ast.NewIdent(name string) (r *ast.Ident)
+//@ assigns nothing
+//@ ensures r != nil
+
+// printer.WriteTo (printer.go) writes header, imports and body to the writer at its offset.
+//@ func (p *Printer) WriteTo(w io.Writer) (n int64, err error)
+//@ assigns fs, foff
+//@ ensures err == nil ==> fs[pathOf(w)] == overwrite(old(fs)[pathOf(w)], old(foff)[w], WriteToBytes(p))
+//@ ensures (pathOf(w) in fs) <==> (pathOf(w) in old(fs))
+//@ ensures sameExcept(fs, old(fs), pathOf(w))
+
+//@ func (p *Printer) HasContent() (r bool)
+//@ pure
+//@ reads-heap
+
+//@ extern func filepath.Join(elem []string) (r string)
+//@ pure
+//@ ensures len(elem) == 2 ==> r == joinPath(elem[0], elem[1])
+
+//@ func (pkg *pkg) Filename() (r string)
+//@ pure
+//@ reads-heap
+//@ noinv
+//@ ensures isDerivedFile(r)
+
+//@ func (pkg *pkg) HasContent() (r bool)
+//@ pure
+//@ reads-heap
+//@ noinv
+
+//@ func (pkg *pkg) Print() (err error)
+//@ assigns fs, foff, synced
+//@ ghost-on-return: synced = (err == nil || synced)
+//@ ensures [synced] err == nil ==> synced
+//@ ensures [exact-content] err == nil ==> derive.pkg.Filename(pkg) in fs && fs[derive.pkg.Filename(pkg)] == WriteToBytes(pkg.printer)
+//@ ensures [only-derived-file] sameExcept(fs, old(fs), derive.pkg.Filename(pkg))
+
+//@ func (pkg *pkg) Delete() (err error)
+//@ assigns fs, synced
+//@ ghost-on-return: synced = (err == nil || synced)
+//@ ensures [synced] err == nil ==> synced
+//@ ensures [removed] err == nil ==> !(derive.pkg.Filename(pkg) in fs)
+//@ ensures [only-derived-file] sameExcept(fs, old(fs), derive.pkg.Filename(pkg))
+
+// ---------------------------------------------------------------------------
+// generate.go: newPackage, generatePackage  (C10, C07, C11, C09, C01)
+// ---------------------------------------------------------------------------
+
+// isDerivedFile(p): the base name of p is derived.gen.go
+//@ axiom forall d string :: isDerivedFile(joinPath(d, derivedFilename))
+
+// newFileInfos never hands out derived.gen.go for scanning or rewriting (C07 R3).
+//@ func newFileInfos(program *loader.Program, pkgInfo *loader.PackageInfo) (r []*fileInfo)
+//@ assigns nothing
+//@ ensures forall i int :: 0 <= i && i < len(r) ==> r[i] != nil && r[i].funcNames != nil && !isDerivedFile(r[i].fullpath)
+//@ ensures forall i int, k int :: 0 <= i && i < len(r) && 0 <= k && k < len(r[i].undefined) ==> r[i].undefined[k] != nil && r[i].undefined[k].Expr != nil
+//@ ensures forall i int, k int :: 0 <= i && i < len(r) && 0 <= k && k < len(r[i].derived) ==> r[i].derived[k] != nil && r[i].derived[k].Expr != nil
+
+//@ func newPrinter(pkgName string) (r Printer)
+//@ assigns nothing
+//@ ensures r != nil
+//@ func newQualifier(importer importer, p *types.Package) (r types.Qualifier)
+//@ assigns nothing
+//@ ensures r != nil
+
+// mayRename(x): x was built with -autoname or -dedup and may return a name other than the one registered
+//@ func newTypesMap(qual types.Qualifier, prefix string, reserved map[string]struct{}, autoname bool, dedup bool) (r TypesMap)
+//@ assigns nothing
+//@ ensures r != nil && (mayRename(r) <==> (autoname || dedup))
+//@ func (g *Plugin) New(typesMap TypesMap, p Printer, deps map[string]Dependency) (r Generator)
+//@ assigns nothing
+//@ ensures r != nil && (mayRename(r) <==> mayRename(typesMap))
+
+//@ func (c *call) HasUndefined() (r bool)
+//@ pure
+//@ reads-heap
+
+//@ func newPackage(program *loader.Program, pkgInfo *loader.PackageInfo, plugins []Plugin, autoname, dedup bool) (r *pkg, err error)
+//@ assigns fs, foff, handledBy, synced, any ast.CallExpr.Fun
+//@ requires program != nil && pkgInfo != nil && pkgInfo.Pkg != nil
+//@ requires [plugins-sorted] forall a int, b int :: 0 <= a && a < b && b < len(plugins) ==> !before(plugins[b], plugins[a])
+//@ requires forall k int :: 0 <= k && k < len(plugins) ==> plugins[k] != nil
+//@ ghost-on-return: synced = false
+//@ ensures [not-synced] !synced
+//@ ensures [user-files-intact] (!autoname && !dedup) ==> forall q string :: ((q in fs) <==> (q in old(fs))) && fs[q] == old(fs)[q]
+//@ ensures [derived-file-untouched] forall q string :: isDerivedFile(q) ==> ((q in fs) <==> (q in old(fs))) && fs[q] == old(fs)[q]
+//@ ensures [no-file-created-or-deleted] forall q string :: (q in fs) <==> (q in old(fs))
+//@ ensures [pkg-invariant] err == nil ==> r != nil && r.printer != nil && r.generators != nil
+//@ ensures [pkg-plugins] err == nil ==> r.plugins == plugins
+//@ ensures [pkg-generators] err == nil ==> forall i int :: 0 <= i && i < len(plugins) ==> derive.Plugin.Name(plugins[i]) in r.generators && r.generators[derive.Plugin.Name(plugins[i])] != nil
+//@ assert-at-call derive.pkg.Add: forall i int, n string :: 0 <= i && i < len(fileInfos) && n in fileInfos[i].funcNames ==> n in reserved
+//@ assert-after-call format.Node: $ret0 != nil || fs[fileInfo.fullpath] == Format(fileInfo.astFile)
+//@ loop 1: invariant reserved != nil && forall i int, n string :: 0 <= i && i < $i && n in fileInfos[i].funcNames ==> n in reserved
+//@ loop 2: invariant typesmaps != nil && deps != nil
+//@ loop 2: invariant forall i int :: 0 <= i && i < $i ==> derive.Plugin.Name(plugins[i]) in typesmaps && typesmaps[derive.Plugin.Name(plugins[i])] != nil && (mayRename(typesmaps[derive.Plugin.Name(plugins[i])]) <==> (autoname || dedup))
+//@ loop 3: invariant generators != nil
+//@ loop 3: invariant forall i int :: 0 <= i && i < $i ==> derive.Plugin.Name(plugins[i]) in generators && generators[derive.Plugin.Name(plugins[i])] != nil && (mayRename(generators[derive.Plugin.Name(plugins[i])]) <==> (autoname || dedup))
+//@ loop 4: invariant pkg != nil && pkg.plugins == plugins && pkg.generators == generators && pkg.printer == printer
+//@ loop 4: invariant (!autoname && !dedup) ==> forall q string :: ((q in fs) <==> (q in old(fs))) && fs[q] == old(fs)[q]
+//@ loop 4: invariant forall q string :: ((q in fs) <==> (q in old(fs))) && (isDerivedFile(q) ==> fs[q] == old(fs)[q])
+//@ loop 5: invariant pkg != nil && pkg.plugins == plugins && pkg.generators == generators && pkg.printer == printer
+//@ loop 5: invariant (!autoname && !dedup) ==> !changed
